@@ -124,6 +124,9 @@ def values_for(name, cls):
             return ["simple", "with: colon and = equals", "two  blanks inside", "first line\nNote: second line\nthird: line"]
         return ["simple", "with: colon and = equals", "two  blanks inside", "x"]
     if cls == "path":
+        if name == "favicon":
+            # the project's own icon may well be called like FORD's built-in default
+            return ["rel/dir", "./x", "/abs/dir/x", "../up", "favicon.png", "./favicon.png"]
         return ["rel/dir", "./x", "/abs/dir/x", "../up"]
     if cls == "list-str":
         if name == "display":
@@ -188,7 +191,10 @@ def workdir():
 
 
 def evaluate(fmt, options, cli=None, cwd="proj", config_extra=None):
-    """Run the real settings pipeline.  fmt in md | toml | config.  Returns (dict of settings | None, error, log)."""
+    """Run the real settings pipeline: ford.initialize() = argparse on a real argv + load_settings + parse_arguments.
+    fmt in md | toml | config.  Returns (dict of settings | None, error, log)."""
+    import sys
+
     import ford
     from ford.settings import OPTION_SEPARATORS
 
@@ -199,9 +205,8 @@ def evaluate(fmt, options, cli=None, cwd="proj", config_extra=None):
         toml.unlink()
     opts = dict(options)
     body = "Body text of the project file.\n"
-    args = {k: None for k in ("src_dir", "page_dir", "output_dir", "css", "revision", "exclude", "exclude_dir", "extensions", "macro", "warn", "force",
-                              "graph", "search", "quiet", "dbg", "include", "externalize", "external", "config")}
     base_opts = {"preprocess": False}
+    config = None
     if fmt == "md":
         lines = []
         for k, v in {**base_opts, **opts}.items():
@@ -212,24 +217,40 @@ def evaluate(fmt, options, cli=None, cwd="proj", config_extra=None):
         toml.write_text("[extra.ford]\n" + "\n".join(f"{k} = {toml_value(v)}" for k, v in {**base_opts, **opts}.items()) + "\n")
     else:
         text = "preprocess: false\n\n" + body
-        args["config"] = ";".join(f"{k} = {toml_value(v)}" for k, v in opts.items())
+        config = ";".join(f"{k} = {toml_value(v)}" for k, v in opts.items())
     if config_extra:
-        args["config"] = ";".join(f"{k} = {toml_value(v)}" for k, v in config_extra.items())
+        config = ";".join(f"{k} = {toml_value(v)}" for k, v in config_extra.items())
+    pf = proj / "project.md"
+    pf.write_text(text)
+    argv = ["ford", str(pf)]
+    if config is not None:
+        argv += ["--config", config]
     for k, v in (cli or {}).items():
-        args[k] = v
-    args["project_file"] = _PF(str(proj / "project.md"))
+        flag, kind = CLI_FLAGS[k]
+        if kind == "list":
+            for x in v:
+                argv += [flag, x]
+        elif kind == "one":
+            argv += [flag, v]
+        elif kind == "flag":
+            assert v is True
+            argv.append(flag)
+        elif kind == "negflag":
+            assert v is False
+            argv.append(flag)
     buf = io.StringIO()
     old = os.getcwd()
+    old_argv = sys.argv
     try:
         os.chdir({"proj": proj, "parent": root, "elsewhere": root / "elsewhere"}[cwd])
+        sys.argv = argv
         with contextlib.redirect_stdout(buf), contextlib.redirect_stderr(buf):
             try:
-                directory = os.path.dirname(args["project_file"].name)
-                docs, data = ford.load_settings(text, directory, args["project_file"].name)
-                data, docs = ford.parse_arguments(args, docs, data, directory)
+                data, docs = ford.initialize()
             except (Exception, SystemExit) as e:  # noqa
                 return None, f"{type(e).__name__}: {e}", buf.getvalue()
     finally:
+        sys.argv = old_argv
         os.chdir(old)
         if toml.exists():
             toml.unlink()
